@@ -150,6 +150,39 @@ def timed_histories(acceptor, base_ops):
     return out
 
 
+def large_message_run(mib=70):
+    """Sta6, acceptor: one message whose data set of `mib` MiB arrives in P-DATA-TF PDUs of 1 MiB (a provider that
+    announced no limit).  Far beyond what the Coq evaluation of Model.Provider can be given: the cell (Sta6, P-DATA-TF) is
+    the same for every one of these PDUs - DT-2, next state Sta6 - and its effect is compared directly: nothing is written,
+    the machine stays in Sta6, the message is indicated once, complete (length and digest)."""
+    import hashlib
+    import world
+    from pynetdicom2 import pdu
+    chunk = bytes(range(256)) * 4096
+    msg = pd.mk_message('store_rq', 5, 0)
+    msg.command_set.CommandDataSetType = 1
+    msg.set_length()
+    cmd_pdus = pd.fragments(msg, 3, 0)
+    ops = [('seg', pd.mk_rq(0).encode()), ('idle',), ('user', pd.mk_ac(0)), ('idle',)]
+    ops += [('seg', p.encode()) for p in cmd_pdus]
+    want = hashlib.sha256()
+    for k in range(mib):
+        tail = bytes([k % 251]) * 5
+        ops.append(('seg', pdu.PDataTfPDU([pdu.PresentationDataValueItem(3, (b'\x02' if k == mib - 1 else b'\x00') + chunk + tail)]).encode()))
+        ops += [('idle',)] * 17                   # reads of 65536: 17 per PDU
+        want.update(chunk)
+        want.update(tail)
+    ops += [('idle',)] * 4
+    r = world.run_provider(pd.world_script(ops), True, 0, budget=400000)
+    msgs = [g[0] for g in r['given'] if isinstance(g, tuple) and hasattr(g[0], 'command_set')]
+    ds = msgs[0].data_set if msgs else None
+    ok = (r['outcome'] == 'returned' and r['final']['st'] == 6 and len(r['wire']) == 1 and len(msgs) == 1
+          and isinstance(ds, bytes) and len(ds) == mib * (len(chunk) + 5) and hashlib.sha256(ds).hexdigest() == want.hexdigest())
+    return dict(data_set_MiB=mib, outcome=r['outcome'], error=repr(r['exc'])[:200], final_state=r['final']['st'],
+                pdus_written=len(r['wire']), written_types=[w[0] for w in r['wire']][:5], messages_indicated=len(msgs),
+                indications=len(r['given']), data_set_length=(len(ds) if isinstance(ds, bytes) else None), ok=ok)
+
+
 def main(tier, seed, prop='C05'):
     dec = common.Decision(prop, tier, seed)
     common.static_gate(dec, ['Properties/C05.v'], ['Proofs/FsmProofs.v', 'Proofs/FsmCellProofs.v'])
@@ -210,6 +243,12 @@ def main(tier, seed, prop='C05'):
                             theorem='correspondence prov_corr (Model.Provider vs real loop)'), no_input=True)
     for name, out in broken:
         dec.report(dict(kind='case-file-broken', file=name, detail=out), no_input=True)
+    if prop == 'C05':
+        big = large_message_run(70 if tier == 'quick' else 200)
+        if isinstance(cov.get('distribution'), dict):
+            cov['distribution']['large_message'] = big
+        if not big['ok']:
+            dec.report(dict(big, kind='large-message-in-sta6-not-handled-as-dt2'))
     runner.keep = bool(dec.violations)
     runner.cleanup()
     return dec.finish()
